@@ -8,6 +8,7 @@ import (
 	"strings"
 	"time"
 	"unicode"
+	"unicode/utf8"
 
 	"evylang.dev/evy/pkg/lexer"
 	"evylang.dev/evy/pkg/parser"
@@ -93,6 +94,7 @@ func checkParseResult(c *core.Ctx, src string, kinds string) (accepted bool) {
 		return false
 	}
 	prog, err, panicked := parseGuard(c, src)
+	c.Progress()
 	if panicked {
 		return false
 	}
@@ -111,9 +113,14 @@ func checkParseResult(c *core.Ctx, src string, kinds string) (accepted bool) {
 		return false
 	}
 	lines := strings.Split(src, "\n")
+	lineRunes := make([]int, len(lines)) // per-line lengths once: an input can carry 65k diagnostics on one 65k-character line
+	for k, ln := range lines {
+		lineRunes[k] = utf8.RuneCountInString(ln)
+	}
 	var shapes []string
 	for _, e := range perrs {
 		c.Event("errors_checked", 1)
+		c.Progress()
 		txt := e.Error()
 		first := strings.SplitN(txt, "\n", 2)[0]
 		m := errLocRe.FindStringSubmatch(first)
@@ -123,7 +130,7 @@ func checkParseResult(c *core.Ctx, src string, kinds string) (accepted bool) {
 		}
 		l, _ := strconv.Atoi(m[1])
 		col, _ := strconv.Atoi(m[2])
-		if l < 1 || l > len(lines) || col < 1 || col > len([]rune(lines[l-1]))+1 {
+		if l < 1 || l > len(lines) || col < 1 || col > lineRunes[l-1]+1 {
 			c.Violation("error-position", fmt.Sprintf("diagnostic %q points outside the input (%d lines, that line has %d characters)", first, len(lines), lineLen(lines, l)), src, nil)
 		}
 		shapes = append(shapes, quotedRe.ReplaceAllString(m[3], "_"))
